@@ -89,6 +89,8 @@ func C15(c *Ctx) {
 			}
 		}
 	}
+	// the members the general path tests are the node's own lists: table and emitted lists come from the same fields
+	builderPairing(c, "C15-c", "writeCharClassMatcher")
 	r.Check(okEmit, "C15-c", "G.builder.writeCharClassMatcher:table-emission", "", "builder/builder.go", "under b.basicLatinLookupTable, from the node's own members and flag", "the table is not emitted exactly under b.basicLatinLookupTable from (Chars, Ranges, UnicodeClasses, IgnoreCase)")
 	// ---- b
 	nB := 0
